@@ -257,8 +257,9 @@ Export ==
        Out([kind |-> "case", args |-> args, invalid |-> bad,
             texts |-> [j \in 1..(StyleTo - StyleFrom + 1) |-> Text(args, Styles[StyleFrom + j - 1])],
             serial |-> Serial(args, Canon),
+            lenient |-> [j \in 1..(StyleTo - StyleFrom + 1) |-> "tse" \in Outcomes(args, Styles[StyleFrom + j - 1]) /\ ~bad],
             expect |-> IF bad THEN NoValues ELSE Denote(args),
-            devs |-> IF bad THEN <<>> ELSE Devs(args)])
+            devs |-> Devs(args)])
 \* cheap variant used to size a configuration: one short line per case
 ExportCount == Complete /\ (AllowInvalid => bad) => Out([n |-> Len(args), l |-> nl, c |-> nc])
 =============================================================================
